@@ -1847,7 +1847,8 @@ class RecipeStep:
                     before = pandas.DataFrame([before.get_volume(unit)], columns=[before.name])
                     after = pandas.DataFrame([after.get_volume(unit)], columns=[after.name])
                 else:
-                    from_unit = 'U' if isinstance(substance, Substance) and substance.is_enzyme() else 'mol'
+                    from_unit = 'U' if isinstance(substance, Substance) and substance.is_enzyme() \
+                        else config.moles_storage_unit
                     before = pandas.DataFrame([Unit.convert_from(substance, before.contents.get(substance, 0), from_unit, unit)],
                                               columns=[before.name])
                     after = pandas.DataFrame([Unit.convert_from(substance, after.contents.get(substance, 0), from_unit, unit)],
